@@ -61,7 +61,9 @@ def merge(c, viol, tag):
                 viol.append(v('oracle:merge-id-field', c, f'{tag}: the key field id({row["id"]!r}) of the merged dataset gives {row["res"]}'))
             if not inside and 'val' in row['res']:
                 viol.append(v('oracle:merge-id-field', c, f'{tag}: id({row["id"]!r}) returns {row["res"]["val"]} although {row["id"]!r} is not among the merged ids {c["ids"]}'))
-        want = sorted(set.intersection(*[set(d['fields']) for d in c['datasets']]) | {'ids', 'id'})
+        if 'ids_exc' in c:
+            viol.append(v('oracle:merge-ids-fail', c, f'{tag}: the key property `{c.get("ids_name", "ids")}` of the merged dataset raises {c["ids_exc"]}'))
+        want = sorted(set.intersection(*[set(d['fields']) for d in c['datasets']]) | {c.get('ids_name', 'ids'), 'id'})
         if sorted(c['fields']) != want:
             viol.append(v('oracle:merge-fields', c, f'{tag}: merged fields {sorted(c["fields"])}, expected the common ones {want}'))
     return ('{| mg_sets := ' + lib.clist([sl(s) for s in sets]) + f'; mg_built := {str(built).lower()}; mg_ids := {sl(c.get("ids", []))}; mg_rows := '
@@ -94,6 +96,10 @@ def flt(c, viol, tag):
         if row['id'] in c['new_ids'] or True:
             if not row['same_value'] or not row['same_hash']:
                 viol.append(v('oracle:filter-changed-other-field', c, f'{tag}: Filter changed value or hash of {row["field"]}({row["id"]!r})'))
+    for row in c.get('checkids_twice', []):
+        ok = ('val' in row['res']) if row['inside'] else (row['res'].get('exc') == 'KeyError')
+        if not ok:
+            viol.append(v('oracle:checkids-after-checkids', c, f'{tag}: source >> CheckIds() >> Filter >> CheckIds(): id {row["id"]!r} (kept by the filter: {row["inside"]}) gave {row["res"]}'))
     for row in c['checkids']:
         ok = ('val' in row['res']) if row['inside'] else (row['res'].get('exc') == 'KeyError')
         if not ok:
@@ -106,7 +112,8 @@ def flt(c, viol, tag):
 
 def join(c, viol, tag):
     def side(s):
-        return [(i, s['keys'][i][0] if len(s['keys'][i]) == 1 else to_hash_id(s['keys'][i])) for i in s['ids']]
+        pre = 'K:' if c.get('custom_to_key') else ''
+        return [(i, pre + s['keys'][i][0] if len(s['keys'][i]) == 1 else to_hash_id(s['keys'][i])) for i in s['ids']]
     if c.get('int_keys'):
         lk = {c['left']['keys'][i][0] for i in c['left']['ids']}
         rk = {c['right']['keys'][i][0] for i in c['right']['ids']}
@@ -147,6 +154,8 @@ def group(c, viol, tag):
     ids = c['ids']
     if c['mode'] == 'name':
         key = {i: c['g1'][i] for i in ids}
+    elif c['mode'] == 'name-tuple':
+        key = dict(c['expected_keys'])
     elif c['mode'] == 'names':
         key = {i: to_hash_id([c['g1'][i], c['g2'][i]]) for i in ids}
     else:
@@ -154,6 +163,9 @@ def group(c, viol, tag):
     if 'build_exc' in c:
         viol.append(v('oracle:group-build-failed', c, f'{tag}: GroupBy failed to build: {c["build_exc"]}'))
         return None
+    for b in c.get('by_field_bad', [])[:1]:
+        viol.append(v('oracle:group-by-field', c, f'{tag}: the field the dataset is grouped by, read on the grouped dataset for the group {b["key"]!r}, gives {b["got"]}, '
+                                                  f'expected the old values of the members {b["want"]}'))
     if c.get('ids_after_unknown_key') is not None and c['ids_after_unknown_key'] != c['new_ids']:
         viol.append(v('oracle:group-ids-changed', c, f'{tag}: after a field was asked for the unknown group "zz" the ids are {c["ids_after_unknown_key"]}, before they were {c["new_ids"]}'))
     rows = []
@@ -180,6 +192,9 @@ def split(c, viol, tag):
     built = 'build_exc' not in c
     rows = []
     if built:
+        for b in c.get('origin_bad', [])[:1]:
+            viol.append(v('oracle:split-field-sees-new-id', c, f'{tag}: a field origin(id, __part__) of the Split gives {b["got"]!r} for the new id {b["key"]!r}, expected {b["want"]!r} '
+                                                               f'(the id of the entry it is a part of)'))
         for row in c['rows']:
             r = row['image']
             if row['key'] == 'zz':
